@@ -200,6 +200,23 @@ func (t *tamperCtx) mutations() []mutation {
 		pb.Data.Txs[r.Intn(len(pb.Data.Txs))] = bz
 		return true
 	})
+	// every position of the list in turn (the transactions root is built in three index ranges: 1..127, 0, 128..)
+	if n := len(t.X.Transactions()); n <= 400 {
+		for i := 0; i < n; i++ {
+			i := i
+			add("txs", fmt.Sprintf("another valid transaction in place of the one at index %d of %d", i, n), func(pb *kproto.Block) bool {
+				if i >= len(pb.Data.Txs) {
+					return false
+				}
+				bz, err := rlp.EncodeToBytes(t.spare)
+				if err != nil {
+					return false
+				}
+				pb.Data.Txs[i] = bz
+				return true
+			})
+		}
+	}
 	// one field of one transaction re-encoded (amount, nonce, gas, recipient, payload, v, r, s)
 	for _, what := range []string{"amount", "nonce", "gas", "price", "recipient", "payload", "v", "r", "s"} {
 		what := what
@@ -891,6 +908,10 @@ func tamperHeight(c *core.Case, ch *chain, X *types.Block, parts *types.PartSet,
 	}
 	if sameHashRejected > 0 {
 		run.Nontrivial(fmt.Sprintf("tamper|%x", X.Hash().Bytes()))
+		run.Max("max_txs_in_a_tampered_block", int64(X.NumTxs()))
+		if X.NumTxs() > 128 {
+			run.Count("tampered_blocks_with_more_than_128_txs", 1)
+		}
 	}
 	if c.Group == "blocks-corpus" && c.I == 0 && h == 3 {
 		run.Sample(map[string]interface{}{"group": c.Group, "case": c.I, "block": baseWit(), "mutations": len(muts)})
@@ -951,6 +972,12 @@ func blocksCase(c *core.Case, corpus bool) {
 	run.Distinct("validator_counts", fmt.Sprint(nVals))
 	for h := 1; h <= heights; h++ {
 		if k := r.Intn(5); k > 0 || h == 2 || corpus {
+			if (corpus && c.I == 0 && h == 2) || (!corpus && h == 2 && r.Intn(8) == 0) {
+				k = 120 + r.Intn(100) // a long list: the transactions root is built in three index ranges (1..127, 0, 128..)
+				if corpus {
+					k = 200
+				}
+			}
 			if err := ch.addTxs(r, maxInt(k, 2)); err != nil {
 				run.Inconclusive(fmt.Sprintf("case %s:%d height %d: %v", c.Group, c.I, h, err))
 				return
